@@ -168,4 +168,35 @@ def feed (B : BlockCipher) (f : Feeder B) (data : Option Bytes) : Except Err (Fe
       let (m', buf', out) ← feedLoop B f.dec (buf.length + d.length + 1) f.mode (buf ++ d) []
       pure ({ f with mode := m', buffer := some buf' }, out)
 
+/-- what `in_stream.read(block_size)` returns call after call on a stream holding `d` (complete reads, `block_size > 0`),
+up to the first empty result -/
+def readChunks (n : Nat) : Nat → Bytes → List Bytes
+  | 0, _ => []
+  | fuel+1, d => if d.isEmpty then [] else d.take n :: readChunks n fuel (d.drop n)
+
+/-- `feeder.feed(c)` for the chunks one after another; the first exception ends the run -/
+def feedMany (B : BlockCipher) : Feeder B → List Bytes → Except Err (Feeder B × Bytes)
+  | f, [] => .ok (f, [])
+  | f, c :: cs =>
+    match feed B f (some c) with
+    | .error e => .error e
+    | .ok (f1, o1) =>
+      match feedMany B f1 cs with
+      | .error e => .error e
+      | .ok (f2, o2) => .ok (f2, o1 ++ o2)
+
+/-- `_feed_stream(feeder, in_stream, out_stream, block_size)`: what is written to `out_stream` when the `read` calls return
+the chunks `cs` (none of them empty) and then an empty string -/
+def feedStreamChunks (B : BlockCipher) (f : Feeder B) (cs : List Bytes) : Except Err Bytes :=
+  match feedMany B f cs with
+  | .error e => .error e
+  | .ok (f1, o1) =>
+    match feed B f1 none with
+    | .error e => .error e
+    | .ok (_, o2) => .ok (o1 ++ o2)
+
+/-- `encrypt_stream` / `decrypt_stream` on a stream that holds `data` and reads completely -/
+def feedStream (B : BlockCipher) (f : Feeder B) (blockSize : Nat) (data : Bytes) : Except Err Bytes :=
+  feedStreamChunks B f (readChunks blockSize (data.length + 1) data)
+
 end Bec2Verif.Modes
